@@ -73,10 +73,47 @@ def oracle(c, r, refout):
     return None
 
 
+def gen_multi_device(ctx):
+    """more than 64 states, so that with 2+ devices (64-slot minimum batch) devices other than the first hold REAL states:
+    injected policies whose rows differ from state to state, one improvement step"""
+    out = []
+    n = 3 if ctx.tier == "quick" else 24
+    tries = 0
+    while len(out) < n and tries < n * 20:
+        tries += 1
+        sub = ctx.rng.randrange(10 ** 9)
+        rng = random.Random(sub)
+        c = runs.gen_run_case(rng, "pi", ks=[1], max_eval=rng.choice([1, 3]), nS=rng.choice([66, 70, 97, 130]), nA=rng.choice([2, 3]), nE=2, mb=rng.choice([1024, 64, 16]))
+        spec = c["spec"]
+        first = {}
+        for i, a in enumerate(spec["actions"]):
+            first.setdefault(tuple(a), i)
+        spec["init_policy"] = [first[tuple(spec["actions"][rng.randrange(spec["nA"])])] for _ in range(spec["nS"])]
+        c["seed"], c["inject"] = sub, True
+        try:
+            _, guard = runs.reference(c)
+        except (ZeroDivisionError, OverflowError):
+            continue
+        if guard["ok"]:
+            c["guard"] = guard
+            out.append(c)
+    return out
+
+
 def run(ctx, build):
     cs = gen(ctx)
     res = core.run_workers(ctx, [runs.job_of(c) for c in cs])
+    md = gen_multi_device(ctx)
+    md_runs = []
+    for dv in ([2] if ctx.tier == "quick" else [2, 3]):
+        for c, r in zip(md, core.run_workers(ctx, [runs.job_of(c) for c in md], devices=dv)):
+            md_runs.append((dict(c, devices=dv), r))
     corr, viols, items, meta = [], [], [], []
+    for c, r in md_runs:
+        refout, guard = runs.reference(c)
+        why = oracle(c, r, refout)
+        if why:
+            viols.append({"key": f"pi-multi-device:{c['seed']}:{c['devices']}", "what": f"{c['devices']} devices: {why}", "input": {"case": c, "devices": c["devices"]}})
     for c, r in zip(cs, res):
         refout, guard = runs.reference(c)
         why = oracle(c, r, refout)
@@ -98,7 +135,7 @@ def run(ctx, build):
     nontriv = {solverun.case_id([c["spec"]["nxt"], c["spec"]["rew"], c["spec"]["prb"], c["spec"].get("init_policy"), c["test"], c["reset"], c["max_eval"], c["g"], c["eps"]])
                for c in cs if c["spec"]["nA"] >= 2 and solverun.nontrivial_mdp(c["spec"])}
     cov = {
-        "evaluations": len(cs), "distinct_nontrivial": len(nontriv),
+        "evaluations": len(cs) + len(md_runs), "distinct_nontrivial": len(nontriv), "multi_device_runs_with_more_than_64_states": len(md_runs),
         "rule": "generated MDPs x {injected initial policy with one improvement step, whole runs} x test x reset x max_eval_iter in {1,3,100}; "
                 "non-trivial = >= 2 actions and >= 2 positive-probability events somewhere",
         "distribution": dist,
@@ -128,6 +165,11 @@ def replay(ctx, build, data):
     if not inp:
         return {"fails": False, "note": "no concrete input"}
     c = inp["case"]
+    if inp.get("devices"):
+        r = core.run_workers(ctx, [runs.job_of(c)], devices=inp["devices"])[0]
+        refout, _ = runs.reference(c)
+        why = oracle(c, r, refout)
+        return {"fails": bool(why), "why": why}
     r = core.run_workers(ctx, [runs.job_of(c)])[0]
     refout, _ = runs.reference(c)
     why = oracle(c, r, refout)
